@@ -132,7 +132,10 @@ pub fn layout_tree(shape: usize, specs: &[ElemSpec]) -> A {
         0 => elem_from(&specs[0], "a"),
         1 => elem_from(&specs[0], "a").child(elem_from(&specs[1], "b")),
         2 => elem_from(&specs[0], "a").child(elem_from(&specs[1], "b").child(elem_from(&specs[2], "c"))),
-        _ => elem_from(&specs[0], "a").child(elem_from(&specs[1], "b")).child(elem_from(&specs[2], "c")),
+        3 => elem_from(&specs[0], "a").child(elem_from(&specs[1], "b")).child(elem_from(&specs[2], "c")),
+        // root > r > [a > x, b]: a subtree (r) with a declaring branch, a declaration-less element inside it, and a
+        // later sibling that depends on bindings from above the subtree
+        _ => elem_from(&specs[0], "a").child(elem_from(&specs[1], "b").child(elem_from(&specs[2], "c").child(elem_from(&specs[3], "d"))).child(elem_from(&specs[4], "e"))),
     }
 }
 pub fn shape_elems(shape: usize) -> usize {
@@ -149,6 +152,23 @@ pub fn reduced_specs() -> Vec<ElemSpec> {
     reduced_specs_q(&[0, 1])
 }
 /// smaller menu (q never declared) for the quick tier's 3-element layouts
+/// 12 specs for the five-element shape: declaration in {none, p=X, p=Y, default=X} x element in {no namespace, X},
+/// plus four with an attribute in X
+pub fn tiny_specs() -> Vec<ElemSpec> {
+    let mut v = vec![];
+    for (dflt, p) in [(0usize, 0usize), (0, 1), (0, 2), (1, 0)] {
+        for name in 0..2 {
+            v.push(ElemSpec { dflt, p, q: 0, name, attr: 0 });
+        }
+    }
+    for (dflt, p) in [(0usize, 0usize), (0, 1)] {
+        for name in 0..2 {
+            v.push(ElemSpec { dflt, p, q: 0, name, attr: 2 });
+        }
+    }
+    v
+}
+
 pub fn small_specs() -> Vec<ElemSpec> {
     reduced_specs_q(&[0])
 }
